@@ -19,10 +19,16 @@ def module_name(root: Path, path: Path) -> str:
     return ".".join(parts)
 
 
+BEYOND_TOP = "<beyond-top-level-package>"
+
+
 def resolve_from(mod: str, is_pkg: bool, level: int, target: str | None) -> str:
     if level == 0:
         return target or ""
     base = mod.split(".") if is_pkg else mod.split(".")[:-1]
+    if level > len(base):
+        # CPython: "attempted relative import beyond top-level package" - never resolves, whatever the name spells
+        return BEYOND_TOP + "." + (target or "")
     if level > 1:
         base = base[: len(base) - (level - 1)]
     return ".".join(base + ([target] if target else []))
